@@ -646,11 +646,12 @@ _B3.SPEC_FUNCS['ghostv'] = lambda it, args, kwargs: it.ctx.ghost.get(args[0])
 
 CONTRACTS += [
     Contract(id='parser.p_error', file=FILE, func='SmiV2Parser.p_error', serves=['C11'],
-             params={'self': Obj('SmiV2Parser'), 'p': NoneT},
+             params={'self': Obj('SmiV2Parser', lexer=Obj('SmiV2Lexer', lexer=Obj('Lexer', lineno=Int))), 'p': NoneT},
              cases=[('token', {'params': {'p': Obj('LexToken', type=Str, value=Any, lineno=Int)}}),
                     ('end-of-input', {'params': {'p': NoneT}})],
              ensures={'syntax_error_is_always_raised': 'raised and is_exc(exc, "PySmiParserError")',
-                      'located_at_the_offending_token': 'implies(p is not None, raised and exc.lineno == p.lineno)'},
+                      'located_at_the_offending_token': 'implies(p is not None, raised and exc.lineno == p.lineno)',
+                      'end_of_input_located_at_the_last_line': 'implies(p is None, raised and exc.lineno == self.lexer.lexer.lineno)'},
              raises={'PySmiParserError': True}),
     Contract(id='parser.parse', file=FILE, func='SmiV2Parser.parse', serves=['C11', 'C12', 'C02'],
              params={'self': Obj('SmiV2Parser', parser=Comp('yacc'), lexer=Comp('lexerwrap', lexer=Any)), 'data': Str,
